@@ -16,7 +16,8 @@ import textwrap
 
 import vlib
 
-MUTATORS = {"append", "extend", "insert", "remove", "pop", "clear", "update", "sort", "reverse", "setdefault"}
+MUTATORS = {"append", "extend", "insert", "remove", "pop", "popitem", "clear", "update", "sort", "reverse", "setdefault", "add", "discard",
+            "appendleft", "extendleft", "__setitem__", "__delitem__"}
 CLASSES = [("DailyB", "DailyBaselineData"), ("DailyR", "DailyReportingData"), ("BillingB", "BillingBaselineData"),
            ("BillingR", "BillingReportingData"), ("HourlyB", "HourlyBaselineData"), ("HourlyR", "HourlyReportingData"),
            ("CaltrackB", "HourlyCaltrackBaselineData"), ("CaltrackR", "HourlyCaltrackReportingData")]
@@ -89,6 +90,14 @@ def predict_path_writes(cls, entry="predict"):
                 f = sub.func
                 if isinstance(f, ast.Attribute) and is_self_attr(f.value) and f.attr in MUTATORS:
                     writes.add(("mutate", f.value.attr, f.attr))
+                if isinstance(f, ast.Attribute) and any(
+                        kw.arg == "inplace" and not (isinstance(kw.value, ast.Constant) and kw.value.value is False)
+                        for kw in sub.keywords):
+                    base = f.value
+                    while isinstance(base, (ast.Subscript, ast.Attribute)) and not is_self_attr(base):
+                        base = base.value
+                    if is_self_attr(base):
+                        writes.add(("mutate", base.attr, f.attr + "(inplace)"))
                 if isinstance(f, ast.Attribute) and isinstance(f.value, ast.Name) and f.value.id == "self":
                     visit_method(f.attr)
                 if isinstance(f, ast.Name) and f.id in nested:
@@ -150,16 +159,21 @@ def predict_path_writes(cls, entry="predict"):
                 if st.exc is not None:
                     exprs(st.exc, nested)
                 return True
-            if isinstance(st, (ast.Assign, ast.AugAssign, ast.AnnAssign)):
-                tl = st.targets if isinstance(st, ast.Assign) else [st.target]
+            if isinstance(st, (ast.Assign, ast.AugAssign, ast.AnnAssign, ast.Delete)):
+                tl = st.targets if isinstance(st, (ast.Assign, ast.Delete)) else [st.target]
                 for t0 in tl:
                     for t in targets(t0):
                         if is_self_attr(t):
                             writes.add(("augassign" if isinstance(st, ast.AugAssign) else "assign", t.attr))
-                        elif isinstance(t, ast.Subscript) and is_self_attr(t.value):
-                            writes.add(("setitem", t.value.attr))
-                        elif isinstance(t, ast.Attribute) and is_self_attr(t.value):
-                            writes.add(("setattr", t.value.attr, t.attr))
+                            continue
+                        # self.x[k] = v, self.x[k][j] = v, self.x.attr = v, self.x.loc[...] = v, self.x.iloc/.at/.iat[...] = v:
+                        # a store into something reachable from self
+                        base, depth = t, 0
+                        while isinstance(base, (ast.Subscript, ast.Attribute)) and not is_self_attr(base):
+                            base = base.value
+                            depth += 1
+                        if depth > 0 and is_self_attr(base):
+                            writes.add(("store", base.attr))
             exprs(st, nested)
         return False
 
@@ -483,6 +497,27 @@ def shared_class_state(cls):
     return {a: (cand[a].__name__, v) for a, v in sites.items() if a not in rebound}
 
 
+# writes into `self` on the fitted-predict path of HourlyModel that are either modelled (they have a flag of their own) or
+# cannot change an output; anything else sets writes_other_state
+MODELLED_WRITES = {
+    ("assign", "_df_temporal_clusters"): "flag assigns_back",
+    ("mutate", "warnings", "append"): "flag appends_warning",
+    ("mutate", "_ts_features", "append"): "flag extends_features",
+}
+HARMLESS_WRITES = {
+    ("assign", "_ts_features"): "re-bound to the sorted copy of the same list (_sort_features); to_json shows it",
+    ("assign", "_categorical_features"): "rebuilt from the fitted cluster/bin counts on every call to the same value; to_json shows it",
+    ("mutate", "_categorical_features", "extend"): "part of that rebuild (temperature-bin columns)",
+    ("mutate", "_categorical_features", "append"): "part of that rebuild (supplemental categorical columns present in the data)",
+    ("assign", "_ts_feature_norm"): "derived from _ts_features on every call; read only within the call",
+    ("mutate", "_ts_feature_norm", "append"): "part of that derivation",
+    ("mutate", "_ts_feature_norm", "remove"): "part of that derivation",
+    ("assign", "_processed_meter_data_full"): "diagnostic copy of the frame of this call; never read back by fit/predict/to_json",
+    ("assign", "_processed_meter_data"): "diagnostic copy of the frame of this call; never read back by fit/predict/to_json",
+    ("assign", "_T_edge_bin_coeffs"): "only when the attribute is None, i.e. never for a fitted or restored model",
+}
+
+
 def flags():
     from opendsm import eemeter as E
     root = os.path.realpath(vlib.repo_root())
@@ -494,11 +529,15 @@ def flags():
         raise Unrecognised("predict path of HourlyModel not recognised: %s" % methods)
     out = {
         "hourly": {
+            "writes_other_state": any(x not in MODELLED_WRITES and x not in HARMLESS_WRITES for x in w),
             "assigns_back": ("assign", "_df_temporal_clusters") in w,
             "appends_warning": any(x[0] in ("mutate", "augassign") and x[1] == "warnings" for x in w),
             "extends_features": any(x[0] == "mutate" and x[1] == "_ts_features" and x[2] in ("append", "extend", "insert")
                                     for x in w),
             "writes_on_predict_path": sorted("%s %s" % (x[0], ".".join(x[1:])) for x in w),
+            "other_state_writes": sorted("%s %s" % (x[0], ".".join(x[1:])) for x in w
+                                         if x not in MODELLED_WRITES and x not in HARMLESS_WRITES),
+            "harmless_writes": {("%s %s" % (x[0], ".".join(x[1:]))): HARMLESS_WRITES[x] for x in sorted(w) if x in HARMLESS_WRITES},
             "methods_on_predict_path": methods,
         },
         "classes": {},
@@ -545,8 +584,9 @@ def coq_text(fl):
              "(* assignments to self.<attribute> on the predict path of a fitted HourlyModel: %s *)" % "; ".join(
                  h["writes_on_predict_path"]),
              "Definition current_hcfg : hcfg :=",
-             "  {| assigns_back := %s; appends_warning := %s; extends_features := %s |}." % (
-                 b(h["assigns_back"]), b(h["appends_warning"]), b(h["extends_features"])),
+             "  {| assigns_back := %s; appends_warning := %s; extends_features := %s; writes_other_state := %s |}.  (* other: %s *)" % (
+                 b(h["assigns_back"]), b(h["appends_warning"]), b(h["extends_features"]), b(h["writes_other_state"]),
+                 "; ".join(h["other_state_writes"]) or "none"),
              "",
              "Definition current_classes : list (dclass * ccfg) := ["]
     rows = []
